@@ -291,8 +291,14 @@ def run(ctx):
     c12.check_pool_choice(_Renumber(ctx, {4: 1}), f, s_p)
     c12.check_suspension(_Renumber(ctx, {5: 3, 6: 3}, drop=(7,)), f, s_p, qmap, admissibility_only=True)   # re-offer (#7) is C12's own
     check_ops(ctx, 4)
+    # with single-operator containers the operator handed out must be *ready* (parents complete): a child of a running parent
+    # would be refused by the executor's dependency check when its container starts (naive / starter: the clause is C17#5)
+    from . import c17
+    c17.check_one(_Renumber(ctx, {5: 4}, drop=(1, 2, 3, 4, 6)), "naive", "naive", always_single=False)
+    c17.check_one(_Renumber(ctx, {5: 4}, drop=(1, 2, 3, 4, 6)), "tmpl", "template", always_single=True)
     check_flag(ctx, 5)
     c06.check_reductions(ctx, 6)
+    c06.check_divisions(ctx, 6)
     check_validation(ctx, 7)
     sh = c05.check_plan(_Renumber(ctx, {1: 8, 2: 8, 5: 8, 6: 8, 7: 8}))
     c05.check_tick_body(_Renumber(ctx, {4: 8, 5: 8, 6: 8, 7: 8}), sh)
